@@ -186,6 +186,7 @@ def run_case(desc):
         raise HarnessError('C10 entry {} has domain != range'.format(name))
     x = zoo.point(dom, desc['x'])
     style = desc.get('style', 'point')
+    holder = None
     if style == 'param' and part is None:
         # x-is-parameter: the evaluation point is the very object the
         # operator holds as data term / translation / linear term / prior /
@@ -196,6 +197,7 @@ def run_case(desc):
                 params.append(p_)
         if params:
             x = params[desc.get('pidx', 0) % len(params)]
+            holder = zoo.param_holder(op, x)
         else:
             style = 'point'
     else:
@@ -220,10 +222,19 @@ def run_case(desc):
     V = getattr(op, '_verif_oop_operand', None)
     if V is not None and not type(V)._call_has_out:
         strata.append('operand-oop-only')
+    W = getattr(op, '_verif_view_inner', None)
+    if W is not None and style == 'point':
+        try:
+            if zoo.result_shares_memory(W, x):
+                strata.append('inner-returns-view')
+        except Exception:  # noqa
+            pass
 
     def sig(clause, extra=''):
         if style == 'param':
-            extra = (extra + '|' if extra else '') + 'x-is-parameter'
+            # root cause key: which (sub-)operator keeps the parameter object
+            extra = (extra + '|' if extra else '') + 'x-is-parameter|' + \
+                'holder=' + (holder or 'none')
         return 'C10|{}|{}|{}{}'.format(clause, cls, region,
                                        '|' + extra if extra else '')
 
@@ -304,7 +315,7 @@ def run_case(desc):
 REQUIRED_STRATA = ['entry:' + n for n, e in zoo.ENTRIES.items()
                    if e.c10 and n != 'fprox.IndicatorNuclearNormUnitBall'] + \
     ['moved', 'space:pspace', 'space:discr', 'space:tensor',
-     'x-is-parameter', 'operand-oop-only']
+     'x-is-parameter', 'operand-oop-only', 'inner-returns-view']
 
 _cats = sorted({s[4] for s in SITES})
 ASSUMPTIONS = ASSUMPTIONS + [
